@@ -78,6 +78,7 @@ func SetStepBudget(n int)     {}
 func DropSpawned()            {}
 func PanicSite() string       { return "" }
 func Goroutines()             {}
+func Yield()                  { time.Sleep(20 * time.Millisecond) }
 func Quiesce()                { time.Sleep(30 * time.Millisecond) }
 func Spawned() int            { return 0 }
 func AllowUnbuffered(ch interface{}) {}
